@@ -581,7 +581,7 @@ pub fn oracle(c: &Case, o: &Outcome) -> Vec<(String, String)> {
                 fails.push((format!("prefix:{k}"), format!("{}→{} ch{}: {d}", ["A", "B"][side], ["A", "B"][peer], ch.id)));
             } else if delivered.len() < submitted.len() {
                 // excused only by a close the case itself asked for (teardown / close_data_channel of this channel)
-                let excused = (0..2).any(|s| c.end.closes_side(s)) || c.closes.iter().any(|(_, id)| *id == ch.id);
+                let excused = c.closes.iter().any(|(_, id)| *id == ch.id);   // (a teardown only starts after everything was delivered)
                 if !excused {
                     fails.push(("stall".into(), format!("{}→{} ch{}: {} of {} delivered after {} ms (script exhausted: {})",
                         ["A", "B"][side], ["A", "B"][peer], ch.id, delivered.len(), submitted.len(), o.elapsed_ms, o.faults_used.iter().all(|u| *u))));
